@@ -49,7 +49,8 @@ def cases(tier, seed):
     import random
     r = random.Random(seed)
     cs = []
-    signers = pool.SIGNERS if tier == 'thorough' else ['ed25519_0', 'rsa1024_0', 'dsa1024_0', 'ecdsa_p256_0', 'rsa2048_0', 'dsa2048_0', 'ecdsa_k256_0', 'ecdsa_p521_0', 'ecdsa_p384_0']
+    signers = list(pool.SIGNERS) if tier == 'thorough' else ['ed25519_0', 'rsa1024_0', 'dsa1024_0', 'ecdsa_p256_0', 'rsa2048_0', 'dsa2048_0', 'ecdsa_k256_0', 'ecdsa_p521_0', 'ecdsa_p384_0']
+    signers.append('rsa1024_1+alg3')      # an RSA key under the deprecated sign-only identifier (such keys exist and can only be imported)
     hashes = list(sigwork.HASHES)
     # A: product kind x signer with rotating hash; then hash x signer on documents; then option sets
     i = 0
